@@ -313,68 +313,134 @@ def _worker_init():
 
 
 def run_forked(jobs, workers, fn):
-    """Run fn(*job) for every job, each in a child forked from this (pristine)
-    process, at most `workers` at a time; results in job order.  One batch =
-    one process lifetime, so whatever process-global state the code under test
-    keeps is part of a batch's (repeatable) history and never leaks between
-    batches or depends on the worker count."""
+    """Run fn(*job) for every job, each in its own process, at most `workers`
+    at a time; results in job order.  One batch = one process lifetime, so
+    whatever process-global state the code under test keeps is part of a
+    batch's (repeatable) history and never leaks between batches or depends on
+    the worker count.
+
+    Workers are forked by a small *factory* process that is itself forked
+    first, while this process is still pristine and small: the parent grows as
+    it merges results (hundreds of MB in thorough runs), and forking workers --
+    and their oracle zygotes and grandchildren -- from a large parent made every
+    fork slow."""
     import pickle
     import tempfile
     results = [None] * len(jobs)
-    running = {}
-    nxt = 0
     tmpdir = tempfile.mkdtemp(prefix="verif-fork-", dir="/dev/shm" if os.path.isdir("/dev/shm") else None)
-    try:
-        while nxt < len(jobs) or running:
-            while nxt < len(jobs) and len(running) < workers:
-                path = os.path.join(tmpdir, f"{nxt}.pkl")
-                sys.stdout.flush()
-                sys.stderr.flush()
-                pid = os.fork()
-                if pid == 0:
-                    code = 0
+    note_r, note_w = os.pipe()
+    sys.stdout.flush()
+    sys.stderr.flush()
+    factory = os.fork()
+    if factory == 0:
+        code = 0
+        try:
+            os.close(note_r)
+            for o in _ORACLES.values():
+                for fd in (o.req_w, o.res_r):
                     try:
-                        # drop oracles inherited from the parent (their pipes belong to it)
-                        for o in _ORACLES.values():
-                            for fd in (o.req_w, o.res_r):
-                                try:
-                                    os.close(fd)
-                                except OSError:
-                                    pass
-                        _ORACLES.clear()
-                        _worker_init()
-                        out = fn(*jobs[nxt])
-                        with open(path + ".tmp", "wb") as f:
-                            pickle.dump(out, f)
-                        os.replace(path + ".tmp", path)
-                    except BaseException:
-                        traceback.print_exc()
-                        code = 3
-                    finally:
-                        sys.stdout.flush()
-                        sys.stderr.flush()
-                        os._exit(code)
-                running[pid] = (nxt, path)
-                nxt += 1
-            pid, status = os.wait()
-            if pid not in running:
-                continue
-            i, path = running.pop(pid)
-            if status != 0 or not os.path.exists(path):
-                for q in running:
-                    try:
-                        os.kill(q, signal.SIGKILL)
+                        os.close(fd)
                     except OSError:
                         pass
-                raise HarnessError(f"worker for job {i} {jobs[i][:4] if isinstance(jobs[i], tuple) else ''} "
-                                   f"died (status {status})")
-            with open(path, "rb") as f:
-                results[i] = pickle.load(f)
-            os.unlink(path)
+            _ORACLES.clear()
+            _factory_loop(jobs, workers, fn, tmpdir, note_w)
+        except BaseException:
+            traceback.print_exc()
+            code = 4
+        finally:
+            sys.stdout.flush()
+            sys.stderr.flush()
+            os._exit(code)
+    os.close(note_w)
+    try:
+        buf = b""
+        done = 0
+        failed = None
+        while True:
+            chunk = os.read(note_r, 65536)
+            if not chunk:
+                break
+            buf += chunk
+            while b"\n" in buf:
+                line, buf = buf.split(b"\n", 1)
+                i, status = (int(x) for x in line.split())
+                path = os.path.join(tmpdir, f"{i}.pkl")
+                if status != 0 or not os.path.exists(path):
+                    failed = (i, status)
+                    break
+                with open(path, "rb") as f:
+                    results[i] = pickle.load(f)
+                os.unlink(path)
+                done += 1
+            if failed:
+                break
+        if failed:
+            try:
+                os.kill(factory, signal.SIGTERM)
+            except OSError:
+                pass
+        _, fstatus = os.waitpid(factory, 0)
+        if failed:
+            i, status = failed
+            raise HarnessError(f"worker for job {i} {jobs[i][:5] if isinstance(jobs[i], tuple) else ''} "
+                               f"died (status {status})")
+        if fstatus != 0 or done != len(jobs):
+            raise HarnessError(f"worker factory ended with status {fstatus} after {done}/{len(jobs)} jobs")
     finally:
+        os.close(note_r)
         import shutil
         shutil.rmtree(tmpdir, ignore_errors=True)
     return results
+
+
+def _factory_loop(jobs, workers, fn, tmpdir, note_w):
+    import pickle
+    running = {}
+    nxt = 0
+
+    def _term(signum, frame):
+        for q in running:
+            try:
+                os.kill(q, signal.SIGKILL)
+            except OSError:
+                pass
+        os._exit(5)
+    signal.signal(signal.SIGTERM, _term)
+    while nxt < len(jobs) or running:
+        while nxt < len(jobs) and len(running) < workers:
+            path = os.path.join(tmpdir, f"{nxt}.pkl")
+            pid = os.fork()
+            if pid == 0:
+                code = 0
+                try:
+                    signal.signal(signal.SIGTERM, signal.SIG_DFL)
+                    os.close(note_w)
+                    _worker_init()
+                    out = fn(*jobs[nxt])
+                    with open(path + ".tmp", "wb") as f:
+                        pickle.dump(out, f)
+                    os.replace(path + ".tmp", path)
+                except BaseException:
+                    traceback.print_exc()
+                    code = 3
+                finally:
+                    sys.stdout.flush()
+                    sys.stderr.flush()
+                    os._exit(code)
+            running[pid] = nxt
+            nxt += 1
+        pid, status = os.wait()
+        if pid not in running:
+            continue
+        i = running.pop(pid)
+        os.write(note_w, f"{i} {status}\n".encode())
+        if status != 0:
+            for q in running:
+                try:
+                    os.kill(q, signal.SIGKILL)
+                except OSError:
+                    pass
+            os._exit(6)
 
 
 def n_workers() -> int:
